@@ -68,20 +68,31 @@ mutual
               cases hd <;> simp at hb ⊢ <;> omega
             | crash g3 => simp [AcctOut]
           | true =>
-            simp only [ite_true]
-            cases src with
-            | ready r =>
-              simp only [enterHere, Dispatch.asyncEntry, ite_true]
+            simp only [↓reduceIte]
+            rw [enterHere_eq]
+            have hsrc := startSrc_acct cfg src ctx (asyncRetAcct (stepType mode hd)
+              ((G.allocCore (g.invoke id ctx via) (srcCores src + steps.length)).allocFunctor (srcFunctors src + steps.length)))
+            cases hst : startSrc cfg src ctx (asyncRetAcct (stepType mode hd)
+              ((G.allocCore (g.invoke id ctx via) (srcCores src + steps.length)).allocFunctor (srcFunctors src + steps.length))) with
+            | go r0 inh0 c0 g3 =>
+              rw [hst] at hsrc
+              simp only [cnt_asyncRetAcct, cnt_allocFunctor, cnt_allocCore, cnt_invoke] at hsrc
+              simp only []
               apply asyncFinish_acct_lazy _ own k ctx _ c f hk
-              apply runSteps_acct cfg steps _ true ctx r .inl _ _ _ hsteps (by intro hu; cases hu)
-              simp only [Bal, cnt_asyncRetAcct, cnt_allocFunctor, cnt_allocCore, cnt_invoke, srcCores, srcFunctors]
+              apply runSteps_acct cfg steps (src == .unit) true c0 r0 inh0 g3 _ _ hsteps
+                (by intro hu; exact hne hu)
+              simp only [Bal, hsrc]
+              rw [srcCores_eq]
+              cases hu : (src == Src.unit) <;> cases hd <;> simp at hb ⊢ <;> omega
+            | wait w inh0 g3 =>
+              rw [hst] at hsrc
+              simp only [cnt_asyncRetAcct, cnt_allocFunctor, cnt_allocCore, cnt_invoke] at hsrc
+              obtain ⟨h1, h2, h3, h4, h5⟩ := hsrc
+              simp only [AcctOut, Bal, h1, coresT, funsT, coresFrames, funsFrames, h3, h4,
+                wfThread, wfFrames, h5, hsteps, hk]
+              refine ⟨?_, by simp⟩
               cases hd <;> simp at hb ⊢ <;> omega
-            | contract p f => simp [enterHere, Dispatch.asyncEntry, AcctOut]
-            | contractOn e p f => simp [enterHere, Dispatch.asyncEntry, AcctOut]
-            | unit => simp [enterHere, Dispatch.asyncEntry, AcctOut]
-            | promiseFn e p f => simp [enterHere, Dispatch.asyncEntry, AcctOut]
-            | sharedReady r => simp [enterHere, Dispatch.asyncEntry, AcctOut]
-            | sharedContract p f => simp [enterHere, Dispatch.asyncEntry, AcctOut]
+            | crash g3 => simp [AcctOut]
       | doneException => exact hskip _ _ _ rfl
       | doneError => exact hskip _ _ _ rfl
       | doneResult => exact hskip _ _ _ rfl
